@@ -952,18 +952,36 @@ impl IndexManager {
         truncated_key[..9.min(key_bytes.len())]
             .copy_from_slice(&key_bytes[..9.min(key_bytes.len())]);
 
-        if let Some(index) = self.indices.get_mut(&index_id) {
-            let tombstone = UpdateEntry::new(
-                truncated_key,
-                entry.archive_location,
-                entry.size,
-                UpdateStatus::Delete,
-            );
-            index.update_section.append(tombstone);
+        let tombstone = UpdateEntry::new(
+            truncated_key,
+            entry.archive_location,
+            entry.size,
+            UpdateStatus::Delete,
+        );
+        self.append_update(index_id, tombstone)
+    }
+
+    /// Append an entry to a bucket's update section.
+    ///
+    /// If the update section is full, flushes it first (merge into the
+    /// sorted section), then retries -- the same policy as `add_entry`.
+    /// Returns `false` only if the entry could not be stored.
+    fn append_update(&mut self, index_id: u8, entry: UpdateEntry) -> bool {
+        let Some(index) = self.indices.get_mut(&index_id) else {
+            return false;
+        };
+        if index.update_section.append(entry.clone()) {
             return true;
         }
 
-        false
+        // Update section full -- flush (merge into sorted), then retry
+        if let Err(e) = self.flush_updates_for_bucket(index_id) {
+            warn!("Failed to flush full update section of bucket {index_id:02x}: {e}");
+            return false;
+        }
+        self.indices
+            .get_mut(&index_id)
+            .is_some_and(|index| index.update_section.append(entry))
     }
 
     /// Check if an entry exists by encoding key
@@ -994,20 +1012,16 @@ impl IndexManager {
         truncated_key[..9.min(key_bytes.len())]
             .copy_from_slice(&key_bytes[..9.min(key_bytes.len())]);
 
-        if let Some(index) = self.indices.get_mut(&index_id) {
-            let entry = UpdateEntry::new(
-                truncated_key,
-                ArchiveLocation {
-                    archive_id,
-                    archive_offset,
-                },
-                size,
-                UpdateStatus::Normal,
-            );
-            return index.update_section.append(entry);
-        }
-
-        false
+        let entry = UpdateEntry::new(
+            truncated_key,
+            ArchiveLocation {
+                archive_id,
+                archive_offset,
+            },
+            size,
+            UpdateStatus::Normal,
+        );
+        self.append_update(index_id, entry)
     }
 
     /// Update an entry's status byte without changing its location.
@@ -1028,13 +1042,8 @@ impl IndexManager {
         truncated_key[..9.min(key_bytes.len())]
             .copy_from_slice(&key_bytes[..9.min(key_bytes.len())]);
 
-        if let Some(index) = self.indices.get_mut(&index_id) {
-            let update =
-                UpdateEntry::new(truncated_key, entry.archive_location, entry.size, status);
-            return index.update_section.append(update);
-        }
-
-        false
+        let update = UpdateEntry::new(truncated_key, entry.archive_location, entry.size, status);
+        self.append_update(index_id, update)
     }
 
     /// Flush the update section for a bucket into the sorted section.
